@@ -197,6 +197,14 @@ struct Driver {
         inst.clear();
         ranges().clear();
         st().root_submit = nullptr;
+        {
+            // every event object the library stored must be gone once all machines are destroyed (C20)
+            char tmp[96];
+            snprintf(tmp, sizeof tmp, "LIVE %zu %ld %ld %ld", zoo().live.size(), zoo().ctor, zoo().dtor, zoo().errors);
+            tr().line(tmp);
+            zoo().live.clear();
+            zoo().errors = 0;
+        }
     }
 };
 
